@@ -22,7 +22,7 @@ func TestCheck(t *testing.T) {
 	ev = drv.NewEvidence("C04", "exploration", rule)
 	n := 14
 	if drv.Thorough() {
-		n = 250
+		n = 120
 	}
 	progs := make([]gengen.Program, n)
 	for i := range progs {
